@@ -14,13 +14,15 @@ package loadaware
 // it (node over in that pass' running estimate, another node under that pass' low thresholds,
 // that pass' headroom positive); unmeasured rounds neither extend nor break an over-threshold
 // streak; only Evict calls are judged (an over-loaded node that is not relieved is counted as
-// converse_misses_*, never a verdict). Signature suffixes .../on-threshold-float-truncated,
-// .../pod-count-ignores-metricless-evictions, .../after-interrupted-streak,
-// .../deviation-threshold-float (node on, or less than a unit under, its exact mean+deviation
-// threshold) and .../raw-allocatable-drops-unlisted-dimension (amplified node in a pool that
-// thresholds a dimension its raw-allocatable annotation does not list) are diagnostics computed
-// from the inputs that name the identifying fact of a violation; they never change what is a
-// violation. An anomaly that a qualifying run opened and that is kept open across measured
+// converse_misses_*, never a verdict). Signature suffixes .../on-threshold,
+// .../on-threshold-float-truncated, .../pod-count-ignores-metricless-evictions and
+// .../after-interrupted-streak are facts of the inputs that narrow a signature; they never change
+// what is a violation. .../deviation-threshold-float (the recorded known finding) is attributed only
+// when the very Evict call is fully justified once the pool's deviation thresholds of this and all
+// earlier rounds are recomputed the way the code does, in float64 (every summation order up to 4
+// nodes, else a dozen orders plus the two ends of the interval reordering can reach; the code sums
+// in Go map order, so its own result - and the replay of such a case - is not deterministic).
+// An anomaly that a qualifying run opened and that is kept open across measured
 // not-over rounds is counted (anomaly_open_kept_across_not_over_round), not asserted.
 //
 // Causal rules of the generator (what the real system can produce):
@@ -127,7 +129,6 @@ type c18Node struct {
 	maxRunBefore     int  // longest completed earlier run of consecutive over-threshold rounds
 	evictedEarlier   bool // an Evict call was made for a pod of this node in an earlier round
 	truncOnThreshold bool // in an earlier round of the current history the node sat exactly on a high threshold that the shipped float formula truncates
-	rawDropsDim      bool // the node carries a raw-allocatable annotation that does not list a dimension (pods) its pool thresholds
 	devOnThreshold   bool // in an earlier round the node sat on / less than one unit under an exact deviation high threshold without being over it
 	bridgedUnmeasure bool
 }
@@ -191,6 +192,7 @@ type c18World struct {
 	filterCalls             int
 	events                  []c18Event
 	nextPod                 int
+	hist                    [][]*c18Table // per round the pools' tables (the measured usages in them are never modified)
 }
 
 func (w *c18World) podsAssignedToNode(nodeName string, filter framework.FilterFunc) ([]*corev1.Pod, error) {
@@ -1042,25 +1044,6 @@ func c18DevFloatHigh(tab *c18Table, row *c18Row, pass int, res corev1.ResourceNa
 	return int64(pct * float64(row.n.alloc[res]) / 100)
 }
 
-// c18RawDropsDim (diagnostic only): the node has a raw-allocatable annotation and its pool names, in
-// either pass, a dimension the annotation does not list.
-func c18RawDropsDim(tab *c18Table, n *c18Node) bool {
-	s, ok := n.obj.Annotations[apiext.AnnotationNodeRawAllocatable]
-	if !ok {
-		return false
-	}
-	raw := corev1.ResourceList{}
-	_ = json.Unmarshal([]byte(s), &raw)
-	for pass := 0; pass < 2; pass++ {
-		for _, res := range tab.res[pass] {
-			if _, listed := raw[res]; !listed {
-				return true
-			}
-		}
-	}
-	return false
-}
-
 // c18WithinOneUnder: 0 <= t-u < 1, i.e. u is the last whole usage that is not above t.
 func c18WithinOneUnder(u int64, t *big.Rat) bool {
 	d := new(big.Rat).Sub(t, new(big.Rat).SetInt64(u))
@@ -1194,6 +1177,12 @@ func c18BuildTable(w *c18World, cfg *c18PoolCfg) *c18Table {
 			}
 		}
 	}
+	tab.classify()
+	return tab
+}
+
+// classify derives over / under / headroom from the usages and thresholds of the table.
+func (tab *c18Table) classify() {
 	for _, row := range tab.rows {
 		if !row.measured {
 			continue
@@ -1219,7 +1208,222 @@ func c18BuildTable(w *c18World, cfg *c18PoolCfg) *c18Table {
 			}
 		}
 	}
-	return tab
+}
+
+// c18Apply: the effect of a successful eviction on the running estimates and the headroom ledgers.
+func c18Apply(tab *c18Table, row *c18Row, pod *c18Pod) {
+	m, reported := row.podM[pod.key()]
+	srcPass := c18PassProd
+	if row.over0[c18PassNode] {
+		srcPass = c18PassNode
+	}
+	if !reported {
+		row.metriclessEvicted++
+		tab.metriclessHead[srcPass]++
+	}
+	for _, res := range c18Res {
+		var v int64
+		if res == corev1.ResourcePods {
+			v = 1
+		} else if reported {
+			v = m[res]
+		}
+		row.est[c18PassNode][res] -= v
+		if pod.prod {
+			row.est[c18PassProd][res] -= v
+		}
+		// the load moved consumes the headroom of the pass the node is a source of; a node that
+		// was over its whole-node thresholds at the start is a source of the whole-node pass.
+		if srcPass == c18PassNode || pod.prod {
+			if _, ok := tab.head[srcPass][res]; ok {
+				tab.head[srcPass][res] -= v
+			}
+		}
+	}
+}
+
+// c18Judge: is this Evict call justified on the given table? "" = yes, else the kind of verdict.
+func c18Judge(tab *c18Table, row *c18Row, pod *c18Pod, callsBefore, streak, maxRunBefore int) string {
+	if !row.measured {
+		return "unmeasured-node"
+	}
+	overNow := [2]bool{row.overNow(tab, 0), row.overNow(tab, 1)}
+	if !overNow[0] && !overNow[1] {
+		return "not-over"
+	}
+	if streak < tab.cfg.need && maxRunBefore < tab.cfg.need {
+		return "short-streak"
+	}
+	under, justified := false, false
+	for pass := 0; pass < 2; pass++ {
+		if overNow[pass] && tab.otherUnder(row, pass) {
+			under = true
+			if tab.headPositive(pass) {
+				justified = true
+			}
+		}
+	}
+	switch {
+	case !under:
+		return "no-underused-node"
+	case !justified:
+		return "headroom-exhausted"
+	case !c18FilterPasses(pod.obj, callsBefore):
+		return "filtered-pod"
+	}
+	return ""
+}
+
+// floatView: the table of a deviation pool with the thresholds recomputed the way the code under test
+// is known to do it - per-node used/capacity*100 summed in float64 in the given node order, divided by
+// the number of measured nodes, +- deviation clamped to 0..100, times capacity / 100, truncated. Used
+// only to decide whether a violation is an instance of the known finding, never for a verdict.
+//
+// shift: with many nodes the order-dependent part of the float64 mean cannot be enumerated; shift = -1 /
+// +1 moves the mean to the lower / upper end of the interval that reordering the sum can reach
+// (|error| <= (n+2) * 2^-52 * mean, the standard bound for recursive summation of n positive terms).
+func (tab *c18Table) floatView(order []int, shift float64) *c18Table {
+	fv := &c18Table{cfg: tab.cfg, res: tab.res}
+	var measured []*c18Row
+	for _, row := range tab.rows {
+		cp := &c18Row{n: row.n, measured: row.measured, unsched: row.unsched, podM: row.podM, pods: row.pods}
+		fv.rows = append(fv.rows, cp)
+		if !row.measured {
+			continue
+		}
+		for pass := 0; pass < 2; pass++ {
+			cp.u[pass] = row.u[pass]
+			cp.est[pass] = map[corev1.ResourceName]int64{}
+			for res, v := range row.u[pass] {
+				cp.est[pass][res] = v
+			}
+			cp.lo[pass] = map[corev1.ResourceName]*big.Rat{}
+			cp.hi[pass] = map[corev1.ResourceName]*big.Rat{}
+		}
+		measured = append(measured, cp)
+	}
+	for pass := 0; pass < 2; pass++ {
+		for _, res := range tab.res[pass] {
+			sum := 0.0
+			for _, i := range order {
+				row := measured[i]
+				sum += float64(row.u[pass][res]) / float64(row.n.alloc[res]) * 100.0
+			}
+			avg := sum / float64(len(measured))
+			avg += shift * float64(len(measured)+2) * 2.220446049250313e-16 * avg
+			for _, row := range measured {
+				for which := 0; which < 2; which++ {
+					pct := avg + tab.cfg.flt(pass, 1, res)
+					if which == 0 {
+						pct = avg - tab.cfg.flt(pass, 0, res)
+					}
+					if pct > 100 {
+						pct = 100
+					}
+					if pct < 0 {
+						pct = 0
+					}
+					t := new(big.Rat).SetInt64(int64(pct * float64(row.n.alloc[res]) / 100))
+					if which == 0 {
+						row.lo[pass][res] = t
+					} else {
+						row.hi[pass][res] = t
+					}
+				}
+			}
+		}
+	}
+	fv.classify()
+	return fv
+}
+
+func (tab *c18Table) measuredCount() int {
+	n := 0
+	for _, row := range tab.rows {
+		if row.measured {
+			n++
+		}
+	}
+	return n
+}
+
+// c18Orders: summation orders tried for n measured nodes (the code sums in Go map order): all of them
+// up to 4 nodes, else forward, reverse and ten fixed shuffles. k-th order of every size belongs together.
+func c18Orders(n int) [][]int {
+	if n <= 4 {
+		if n <= 1 {
+			return [][]int{make([]int, n)}
+		}
+		return c18Perms(n)
+	}
+	fwd, rev := make([]int, n), make([]int, n)
+	for i := range fwd {
+		fwd[i], rev[i] = i, n-1-i
+	}
+	out := [][]int{fwd, rev}
+	for k := 0; k < 10; k++ {
+		out = append(out, kit.NewRand(uint64(977*k+n)).Perm(n))
+	}
+	return out
+}
+
+// floatJustifies: would Evict call evIdx of this round be fully justified if the pool's thresholds, in
+// this and all earlier rounds, were the float64 ones (for some summation order)?
+func (w *c18World) floatJustifies(round, pool, evIdx int) bool {
+	cur := w.hist[round-1][pool]
+	if !cur.cfg.dev {
+		return false
+	}
+	ev := w.events[evIdx]
+	pod := w.byName[ev.pod]
+	for k := 0; k < 26; k++ {
+		shift := 0.0
+		if k >= 24 {
+			shift = float64(2*(k-24) - 1)
+		}
+		pick := func(tab *c18Table) []int {
+			os := c18Orders(tab.measuredCount())
+			if shift != 0 {
+				return os[0]
+			}
+			return os[k%len(os)]
+		}
+		// the node's over-threshold streak under float64 thresholds
+		streak, maxRun := 0, 0
+		var fv *c18Table
+		for r := 0; r < round; r++ {
+			tab := w.hist[r][pool]
+			if tab.measuredCount() == 0 {
+				fv = tab.floatView(nil, 0)
+				continue
+			}
+			fv = tab.floatView(pick(tab), shift)
+			row := fv.row(ev.node)
+			switch {
+			case row == nil || !row.measured:
+			case row.over0[0] || row.over0[1]:
+				streak++
+			default:
+				if streak > maxRun {
+					maxRun = streak
+				}
+				streak = 0
+			}
+		}
+		row := fv.row(ev.node)
+		if row == nil {
+			return false
+		}
+		for j := 0; j < evIdx; j++ {
+			if pj, rj := w.byName[w.events[j].pod], fv.row(w.events[j].node); w.events[j].ok && pj != nil && rj != nil && rj.measured {
+				c18Apply(fv, rj, pj)
+			}
+		}
+		if c18Judge(fv, row, pod, ev.callsBefore, streak, maxRun) == "" {
+			return true
+		}
+	}
+	return false
 }
 
 func (tab *c18Table) row(node string) *c18Row {
@@ -1313,15 +1517,8 @@ func (w *c18World) checkRound(round int, pools []*c18PoolCfg) {
 			}
 			c.Op("%s", line)
 		}(tab)
-		poolDrops := false // deviation thresholds: one such node distorts the mean, i.e. every node's thresholds
-		for _, row := range tab.rows {
-			if tab.cfg.dev && row.measured && c18RawDropsDim(tab, row.n) {
-				poolDrops = true
-			}
-		}
 		for _, row := range tab.rows {
 			n := row.n
-			n.rawDropsDim = poolDrops || c18RawDropsDim(tab, n)
 			switch {
 			case !row.measured:
 				if n.streak > 0 {
@@ -1373,7 +1570,12 @@ func (w *c18World) checkRound(round int, pools []*c18PoolCfg) {
 			}
 		}
 	}
-	for _, ev := range w.events {
+	w.hist = append(w.hist, tabs)
+	tabIndex := map[*c18Table]int{}
+	for i, tab := range tabs {
+		tabIndex[tab] = i
+	}
+	for evIdx, ev := range w.events {
 		pod := w.byName[ev.pod]
 		c.Count("evict_calls_checked", 1)
 		if ev.ok {
@@ -1423,18 +1625,24 @@ func (w *c18World) checkRound(round int, pools []*c18PoolCfg) {
 		}
 		diag := ""
 		switch {
-		case row.n.rawDropsDim && (tab.cfg.dev || row.est[c18PassNode][corev1.ResourcePods] > 0):
-			// identifying fact: amplified node (raw-allocatable lists cpu and memory only) in a pool that
-			// thresholds pods, and it still runs a pod (a zero pod capacity would make it "over"); with
-			// deviation thresholds one such node distorts the mean of the whole pool
-			diag = "/raw-allocatable-drops-unlisted-dimension"
 		case podCount:
 			diag = "/pod-count-ignores-metricless-evictions"
 		case trunc:
 			diag = "/on-threshold-float-truncated"
-		case devNear:
-			// the node sits on, or less than one unit under, the exact deviation threshold mean+deviation
-			diag = "/deviation-threshold-float"
+		}
+		_ = devNear
+		// Attribution to the known deviation-threshold float behaviour: only if this very Evict call is
+		// fully justified once the pool's thresholds are recomputed the way the code does, in float64.
+		floatSuffix := ""
+		floatDone := false
+		devFloat := func() string {
+			if !floatDone {
+				floatDone = true
+				if w.floatJustifies(round, tabIndex[tab], evIdx) {
+					floatSuffix = "/deviation-threshold-float"
+				}
+			}
+			return floatSuffix
 		}
 		if !overNow[0] && !overNow[1] {
 			kind := "continued-after-back-under"
@@ -1444,6 +1652,9 @@ func (w *c18World) checkRound(round int, pools []*c18PoolCfg) {
 			sig := "C18/evict/not-over/" + kind + diag
 			if diag == "" && onThr {
 				sig += "/on-threshold"
+			}
+			if f := devFloat(); f != "" {
+				sig = "C18/evict/not-over/" + kind + f
 			}
 			c.Fail(sig, "%s: the node's usage (measured at the start of the round minus the reported usage of the pods already evicted from it) is above no high threshold, neither whole-node nor prod\n%s", where, tab.dump())
 		}
@@ -1457,12 +1668,10 @@ func (w *c18World) checkRound(round int, pools []*c18PoolCfg) {
 		} else if row.n.streak < tab.cfg.need {
 			sig := "C18/anomaly/short-streak"
 			switch {
-			case row.n.rawDropsDim:
-				sig += "/raw-allocatable-drops-unlisted-dimension"
 			case row.n.truncOnThreshold:
 				sig += "/on-threshold-float-truncated"
-			case row.n.devOnThreshold:
-				sig += "/deviation-threshold-float"
+			case devFloat() != "":
+				sig += devFloat()
 			case row.n.overBeforeGap:
 				// no run was ever long enough: over-threshold rounds separated by not-over rounds add up
 				sig += "/after-interrupted-streak"
@@ -1480,9 +1689,15 @@ func (w *c18World) checkRound(round int, pools []*c18PoolCfg) {
 			}
 		}
 		if len(withUnder) == 0 {
+			if f := devFloat(); f != "" {
+				diag = f
+			}
 			c.Fail("C18/evict/no-underused-node"+diag, "%s: no other schedulable node of the pool is under all low thresholds of the pass in which this node is over (node over=%v, prod over=%v)\n%s", where, overNow[0], overNow[1], tab.dump())
 		}
 		if len(justified) == 0 {
+			if f := devFloat(); f != "" {
+				diag = f
+			}
 			sig := "C18/evict/headroom-exhausted" + diag
 			for _, pass := range withUnder {
 				if diag != "" {
@@ -1525,35 +1740,10 @@ func (w *c18World) checkRound(round int, pools []*c18PoolCfg) {
 		if !ev.ok {
 			continue
 		}
-		m, reported := row.podM[ev.pod]
-		srcPass := c18PassProd
-		if row.over0[c18PassNode] {
-			srcPass = c18PassNode
-		}
-		if !reported {
-			row.metriclessEvicted++
-			tab.metriclessHead[srcPass]++
+		if _, reported := row.podM[ev.pod]; !reported {
 			c.Count("evicted_without_pod_metric", 1)
 		}
-		for _, res := range c18Res {
-			var v int64
-			if res == corev1.ResourcePods {
-				v = 1
-			} else if reported {
-				v = m[res]
-			}
-			row.est[c18PassNode][res] -= v
-			if pod.prod {
-				row.est[c18PassProd][res] -= v
-			}
-			// the load moved consumes the headroom of the pass the node is a source of; a node that
-			// was over its whole-node thresholds at the start is a source of the whole-node pass.
-			if srcPass == c18PassNode || pod.prod {
-				if _, ok := tab.head[srcPass][res]; ok {
-					tab.head[srcPass][res] -= v
-				}
-			}
-		}
+		c18Apply(tab, row, pod)
 		for pass := 0; pass < 2; pass++ {
 			if !row.over0[pass] {
 				continue
